@@ -57,6 +57,9 @@ package server
 //@     where $allowed && $err == nil && $req != nil && $req.Key != nil && *$req.Key == $k.String()
 //@ effect[C33:website-never-mutates] every s.storage.$M(__) where $M == "GetObject" || $M == "HeadObject" || $M == "GetBucketWebsiteConfiguration"
 
+// The directory-redirect probe only asks whether "<key>/<index document>" exists (HeadObject); it returns no object
+// data - the answer is a redirect to "<key>/", which is then authorized as a request of its own.
 //@ func (*Server).tryWebsiteDirectoryRedirect
 //@ mode effects
+//@ effect[C31:directory-probe-returns-no-object-data] every s.storage.$M(__) where $M == "HeadObject"
 //@ effect[C33:website-never-mutates] every s.storage.$M(__) where $M == "GetObject" || $M == "HeadObject" || $M == "GetBucketWebsiteConfiguration"
